@@ -145,7 +145,10 @@ def dict2phase(dictionary: dict) -> Phase:
     else:
         space_group = int(space_group)
     point_group = dictionary["point_group"]
-    if point_group == "None":
+    # The space group determines the point group, while the point group
+    # name alone does not always (e.g. "2" and "m" of the monoclinic
+    # space groups are not names of point groups in orix)
+    if point_group == "None" or space_group is not None:
         point_group = None
     return Phase(
         name=dictionary["name"],
